@@ -8,6 +8,7 @@ export GOFLAGS=-mod=mod GOPROXY=off GOSUMDB=off GOTOOLCHAIN=local
 mkdir -p build evidence
 (cd extract && go build -o ../build/extract .)
 ./build/extract "$REPO" > lean/DtailModel/Generated/Facts.lean.new && mv lean/DtailModel/Generated/Facts.lean.new lean/DtailModel/Generated/Facts.lean
+./build/extract "$REPO" code > lean/DtailModel/Generated/Code.lean.new && mv lean/DtailModel/Generated/Code.lean.new lean/DtailModel/Generated/Code.lean
 (cd lean && lake build DtailModel dtmodel)
 (cd "$REPO" && go build -o "$V/build/bin/" ./cmd/...)
 echo setup-ok
